@@ -44,10 +44,12 @@ THEORIES = {
     "tm-spheroid": ("tm-spheroid", None),
     "mielens-off": ("mielens", {"interpolate_integrals": False}),
     "mielens-check": ("mielens", None),
+    # the numerical lens wrapper: only in the families that name it
+    "lens-mie": ("lens-mie", None),
 }
 TH_TIER = {"quick": ["mie", "ms2", "mielens-off", "mielens-check",
                      "tm-spheroid"],
-           "thorough": list(THEORIES)}
+           "thorough": [t for t in THEORIES if t != "lens-mie"]}
 SHAPE_TIER = {"quick": [(3, 3), (1, 5), (4, 5), (7, 2), (1, 1)],
               "thorough": SHAPES}
 # "holo-shifted" / "holo-moved" differ from "holo" only by a detector of the
@@ -83,6 +85,9 @@ def cases(tier, seed):
             continue          # MieLens needs all points at one height
         out.append({"id": "points-mixed-z:%s" % th, "kind": "mixedz",
                     "th": th})
+    # the numerical lens wrapper accepts points at several heights
+    out.append({"id": "points-mixed-z:lens-mie", "kind": "mixedz",
+                "th": "lens-mie"})
     # the same locations written in other coordinate forms: integer-valued
     # coordinates (integer pixel spacing, integer point lists) and spherical
     # detector points
@@ -153,6 +158,14 @@ def _same(ck, check, th, a, b, what):
     interpolate-or-not decision depends on how many points are asked for"""
     a = np.asarray(a)
     b = np.asarray(b)
+    if th == "lens-mie":
+        # numpy's pairwise summation over the pupil nodes depends on the
+        # number of points evaluated together in the last bits
+        e = float(np.abs(a - b).max()) if a.shape == b.shape else \
+            float("inf")
+        ck.metric(th, e)
+        return ck.true(check, e <= 1e-12, "%s: values differ by %.2e" %
+                       (what, e))
     if th.startswith("mielens"):
         # vectorised numpy reductions inside MieLens depend on the number of
         # points in the last bits [floor 1.4e-14]; 'check' additionally
